@@ -31,7 +31,8 @@ class RandomAgent(AbstractScriptedAgent, discriminator="random-agent"):
         :return: Action formatted in CAOS format
         :rtype: Tuple[str, Dict]
         """
-        return self.action_manager.get_action(self.action_manager.space.sample())
+        # (drawn from the seeded python RNG: a freshly built gymnasium space samples from an unseeded generator)
+        return self.action_manager.get_action(random.randrange(self.action_manager.space.n))
 
 
 class PeriodicAgent(AbstractScriptedAgent, discriminator="periodic-agent"):
